@@ -3,6 +3,7 @@
 use crate::arc::*;
 use crate::engine::*;
 use crate::gen::*;
+use crate::model::TWO_PI;
 use crate::props::c10::in_pool;
 use crate::scene::*;
 use crate::{ensure, viol};
@@ -45,7 +46,8 @@ impl Property for C14 {
         Plan { workers: tier.pick(4, 16), cases_per_worker: tier.pick(1_500, 8_000), max_shrink_iters: 400 }
     }
     fn strategy(&self, _tier: Tier) -> BoxedStrategy<Case> {
-        let target = || prop::array::uniform6(prop_oneof![3 => -0.3..0.3f64, 1 => Just(3.1), 1 => Just(-3.1), 2 => -3.1..3.1f64]);
+        // (values beyond a full turn from the range centre included: limits are meant modulo 2 pi)
+        let target = || prop::array::uniform6(prop_oneof![6 => -0.3..0.3f64, 2 => Just(3.1), 2 => Just(-3.1), 4 => -3.1..3.1f64, 1 => -10.0..10.0f64, 1 => (-3.1..3.1f64, any::<bool>()).prop_map(|(x, n)| x + if n { -TWO_PI } else { TWO_PI })]);
         (
             scene_strategy(2),
             prop::array::uniform6(-1.5..1.5f64),
